@@ -1,5 +1,5 @@
 # replay of a bounded stand-in violation (C14): re-run native/c14_io.py
 import sys
-print('blackbird tdm-two-bands-dagger-select: N=[1, 2] loaded as [3]')
+print("xir tdm-two-bands-dagger-select: loading what was saved raised TypeError: object of type 'int' has no len()")
 print('REPLAY-VIOLATION')
 sys.exit(1)
